@@ -938,11 +938,37 @@ class Unit:
         for it in self.items:
             parts.append(it.emit(self))
         self._check_trait_impl_coverage()
+        self._check_pinned()
         parts.append(FOOTER)
         text = "".join(parts)
         self.text = text
         self._index(text)
         return text
+
+    def _check_pinned(self):
+        """`pinned` = [(file, container | kind, name)]: source items the unit's properties depend on but which
+        are outside the verifier's reach (float formatting through dependencies, const tables).  Their text is
+        pinned by hash (committed baseline); a change makes the unit undecided, which triggers the bounded
+        routines registered for it."""
+        for (file, container, name) in getattr(self, "pinned", []):
+            sf = load_source(file)
+            try:
+                if container in ("const", "static", "struct", "enum"):
+                    it = sf.find_decl(container, name)
+                    text = it.text
+                else:
+                    it = sf.find_fn(name, container, 0)
+                    text = it.signature + it.body
+            except ScanError as e:
+                raise Drift("pinned item lost: " + str(e))
+            norm = re.sub(r"\s+", " ", strip_comments(text)).strip()
+            h = hashlib.sha256(norm.encode()).hexdigest()[:16]
+            key = "%s::%s::%s" % (file, container or "", name)
+            base_h = _stub_baseline().get(key)
+            if base_h is None:
+                raise Drift("pinned item %s has no baseline hash (current %s)" % (key, h))
+            if h != base_h:
+                raise Drift("%s: this item is outside the verifier's reach and pinned by hash; it changed (hash %s, pinned %s)" % (key, h, base_h))
 
     def _check_trait_impl_coverage(self):
         """A trait impl block some of whose methods are under contract here must not contain a
